@@ -46,6 +46,8 @@ package controllers
 //@   sink patcher.Patch#1 requires [C11] pfCheckedArr() != 0 && ea_arr(desiredObj) == pfCheckedArr()
 //@   ensures [C01] err != nil && adoptionRefused(err) ==> W() == old(W())
 //@   ensures failedSoFar() == old(failedSoFar()) && pfCheckedArr() == old(pfCheckedArr())
+//@   ensures [C03] probedOK() == old(probedOK())
+//@   ensures [C03] gomem_unchanged()
 
 //@ props C01,C02,C03,C04,C05,C09,C11
 //@ func package-operator.run/internal/controllers.(*PhaseReconciler).desiredObject
@@ -65,19 +67,32 @@ package controllers
 
 //@ func package-operator.run/internal/controllers.(*PhaseReconciler).reconcilePhaseObject
 //@   requires [C03] !failedSoFar()
+//@   ensures [C03] probedOK() == old(probedOK())
+//@   ensures [C03] gomem_unchanged(*asptr("[]k8s.io/apimachinery/pkg/apis/meta/v1.Condition", condsPtr(owner)))
 //@   requires [C11] pfCheckedArr() != 0 && ea_arr(desiredObj) == pfCheckedArr()
 //@   ensures [C09] old(specPaused(owner)) ==> W() == old(W())
 //@   ensures [C01] err != nil && adoptionRefused(err) ==> W() == old(W())
 //@   ensures failedSoFar() == old(failedSoFar()) && pfCheckedArr() == old(pfCheckedArr())
 
 //@ func package-operator.run/internal/controllers.mapConditions
-//@   assigns mem
+//@   assigns mem, condSt
+//@   ensures [C03] gomem_unchanged(*asptr("[]k8s.io/apimachinery/pkg/apis/meta/v1.Condition", condsPtr(owner))) && probedOK() == old(probedOK())
+//@   loop 1 invariant [C03] gomem_unchanged() && probedOK() == old(probedOK())
+//@   loop 2 invariant [C03] gomem_unchanged(*asptr("[]k8s.io/apimachinery/pkg/apis/meta/v1.Condition", condsPtr(owner))) && probedOK() == old(probedOK())
 //@   ensures err != nil ==> !adoptionRefused(err)
 
 //@ func package-operator.run/internal/controllers.(*recordingProbe).Probe
-//@   assigns mem
+//@   assigns p.failures, sparecap(p.failures), probedOK(obj)
+//@   ghost probedOK(obj) := probeOK(p.probe, objstate(obj))
+//@   ensures [C03] probedOK(obj) == probeOK(p.probe, objstate(obj))
+//@   ensures [C03] probeOK(p.probe, objstate(obj)) ==> len(p.failures) == old(len(p.failures))
+//@   ensures [C03] !probeOK(p.probe, objstate(obj)) ==> len(p.failures) == old(len(p.failures)) + 1
 //@ func package-operator.run/internal/controllers.(*recordingProbe).RecordMissingObject
-//@   assigns mem
+//@   assigns p.failures, sparecap(p.failures)
+//@   ensures [C03] len(p.failures) == old(len(p.failures)) + 1
+//@ func package-operator.run/internal/controllers.(*recordingProbe).Result
+//@   readonly
+//@   ensures [C03] (len(result.PhaseName) == 0 && len(result.FailedProbes) == 0) <==> len(p.failures) == 0
 
 //@ func package-operator.run/internal/controllers.(*PhaseReconciler).ReconcilePhase
 //@   requires [C03] !failedSoFar()
@@ -85,7 +100,14 @@ package controllers
 //@   ensures [C03] failedSoFar() == (old(failedSoFar()) || err != nil || !(len(res.PhaseName) == 0 && len(res.FailedProbes) == 0))
 //@   loop 1 invariant 0 <= idx && failedSoFar() == old(failedSoFar())
 //@   loop 2 invariant !failedSoFar() && pfCheckedArr() != 0 && pfCheckedArr() == sarr(desiredObjects)
-//@   loop 2 invariant 0 <= idx
+//@   loop 2 invariant 0 <= idx && idx <= len(phase.Objects)
+//@   loop 2 invariant [C03] rec.probe == probe
+//@   loop 2 invariant [C03] len(rec.failures) == 0 ==> len(actualObjects) == idx
+//@   loop 2 invariant [C03] cap(actualObjects) == 0 || allocated(sarr(actualObjects))
+//@   loop 2 invariant [C03] forall j int :: 0 <= j && j < len(actualObjects) ==> hastype("*k8s.io/apimachinery/pkg/apis/meta/v1/unstructured.Unstructured", actualObjects[j])
+//@   loop 2 invariant [C03] len(rec.failures) == 0 ==> (forall j int :: 0 <= j && j < len(actualObjects) ==> probedOK(actualObjects[j]))
+//@   ensures [C03] err == nil && len(res.PhaseName) == 0 && len(res.FailedProbes) == 0 ==> len(actualObjects) == len(phase.Objects)
+//@   ensures [C03] err == nil && len(res.PhaseName) == 0 && len(res.FailedProbes) == 0 ==> (forall j int :: 0 <= j && j < len(actualObjects) ==> probedOK(actualObjects[j]))
 
 //@ func package-operator.run/internal/controllers.(*PhaseReconciler).teardownPhaseObject
 //@   requires [C04] !tdPending()
